@@ -341,6 +341,50 @@ def large_case(ctx, idx, rng):
         ctx.close('large.vdot', abs(ptn.vdot(b, a) - refs.mps_overlap(b.A, a.A)), 1e-10 * sa * sb, 'vdot at large L', detail)
 
 
+def soak_case(ctx, idx, rng):
+    """The repository's own test-suite and documentation notebooks with dense references attached to add_mps / add_mpo / multiply_mpo / apply_operator
+    (objects within dense reach; larger ones are counted and passed through)."""
+    from .. import soak
+    n = {'checked': 0, 'beyond-dense-reach': 0}
+
+    def dense(o):
+        return refs.dense_operator(o.A) if isinstance(o, ptn.MPO) else refs.dense_state(o.A)
+
+    def small(*objs):
+        for o in objs:
+            L = len(o.A)
+            d = len(o.qd)
+            if (isinstance(o, ptn.MPO) and d ** (2 * L) > 4096 * 64) or (not isinstance(o, ptn.MPO) and d ** L > 16384) or L == 0:
+                return False
+        return True
+
+    def make(name, ref):
+        def around(orig, *a, **k):
+            objs = [x for x in a if isinstance(x, (ptn.MPS, ptn.MPO))]
+            if not small(*objs):
+                n['beyond-dense-reach'] += 1
+                return orig(*a, **k)
+            ds = [dense(o) for o in objs]
+            r = orig(*a, **k)
+            n['checked'] += 1
+            alpha = k.get('alpha', a[2] if len(a) > 2 else 1)
+            want = ref(ds, alpha)
+            sc = float(np.sum([ts(o) for o in objs])) if name.startswith('add') else float(np.prod([ts(o) for o in objs]))
+            ctx.close(f'soak.{name}.dense', float(np.linalg.norm(dense(r) - want)), 1e-10 * max(sc * (1 + abs(alpha)), 1e-300),
+                      f'{name} called from the test-suite / notebooks deviates from dense linear algebra', {'function': name}, True)
+            return r
+        return around
+    att = [('pytenet.mps.add_mps', make('add_mps', lambda ds, al: ds[0] + al * ds[1])),
+           ('pytenet.mpo.add_mpo', make('add_mpo', lambda ds, al: ds[0] + al * ds[1])),
+           ('pytenet.mpo.multiply_mpo', make('multiply_mpo', lambda ds, al: ds[0] @ ds[1])),
+           ('pytenet.operation.apply_operator', make('apply_operator', lambda ds, al: ds[0] @ ds[1]))]
+    ctx.case(('soak', 'repository-test-suite+notebooks'), sample={'functions_monitored': [a for a, _ in att]})
+    soak.run_suite(ctx, att)
+    soak.run_notebooks(ctx, att)
+    for k, v in n.items():
+        ctx.event('soak_calls_' + k, v)
+
+
 SPEC = {
     'id': 'C03',
     'rule': ('histories: every result object is edited in place and converted / used again (stale caches); sums/differences of MPS and MPO (L 1..6 incl. the single-site path, independent bond profiles one/random/maximal/over-complete for the '
@@ -360,6 +404,7 @@ SPEC = {
         Workload('from-vector', from_vector_case, quick=250, thorough=48000),
         Workload('large', large_case, quick=80, thorough=8000),
         Workload('merge-split', merge_split_case, quick=600, thorough=64000),
+        Workload('suite-soak', soak_case, quick=0, thorough=1, shardable=False),
     ],
     'shards': {'quick': 1, 'thorough': 16},
     'assumptions': ['dense contraction in pvm/refs.py'],
